@@ -178,6 +178,10 @@ func (ix *idxEngine) table() []tableEntry {
 							return
 						}
 						for _, g := range gs {
+							if g == nil {
+								bad = "SetProperty key in " + FuncName(fn) + " is a literal, not a package-level key variable"
+								continue
+							}
 							if _, isPtr := g.Type().(*types.Pointer).Elem().(*types.Pointer); !isPtr {
 								bad = "key variable " + g.Name() + " is not a pointer"
 							}
